@@ -208,6 +208,8 @@ def _run(ctx):
             rg = ctx.rng("strain", a, b, n)
             rows = int(rg.integers(1, 7))
             e = rg.uniform(0.05, 0.9, size=(rows, 3))
+            if n % 3 == 2:          # nearly (but not exactly) isotropic rows: differences of 0.05-0.5 %
+                e = (1.0 / 3.0) * (1 + rg.uniform(-1, 1, size=(rows, 3)) * float(rg.choice([5e-4, 2e-3, 5e-3])))
             if n % 2:
                 e /= e.sum(axis=1, keepdims=True)
             o2 = Shear(e, key)
